@@ -570,6 +570,22 @@ class Comparer:
                 if kb + 1 < len(ib) and all(self._terminates_deep(alt[1]) for alt in xb[1]):
                     xb = ('if', xb[1], list(xb[2]) + ib[kb + 1:], xb[-1])
                     ib = ib[:kb] + [xb]
+            # `if c: A; return E else: B; return F` on one side, `if c: A' else: B'` + REST (ending in a return) on the
+            # other: REST is the end of every arm that does not leave on its own - spell both sides alike
+            if xa[0] == 'if' and xb[0] == 'if':
+                def _all_leave(x):
+                    return bool(x[2]) and all(self._terminates_deep(alt[1]) for alt in x[1]) and self._terminates_deep(x[2])
+
+                def _push(x, rest):
+                    alts = [(alt[0], list(alt[1]) + ([] if self._terminates_deep(alt[1]) else list(rest))) + tuple(alt[2:]) for alt in x[1]]
+                    els = list(x[2]) + ([] if self._terminates_deep(x[2]) else list(rest))
+                    return ('if', alts, els, x[-1])
+                if _all_leave(xa) and not _all_leave(xb) and xb[2] and kb + 1 < len(ib) and self._terminates_deep(ib[kb + 1:]):
+                    xb = _push(xb, ib[kb + 1:])
+                    ib = ib[:kb] + [xb]
+                elif _all_leave(xb) and not _all_leave(xa) and xa[2] and ka + 1 < len(ia) and self._terminates_deep(ia[ka + 1:]):
+                    xa = _push(xa, ia[ka + 1:])
+                    ia = ia[:ka] + [xa]
             # one-sided ignorable items (projection mode: output-only statements)
             if xa[0] != xb[0] or not self._same_shape(xa, xb):
                 if self._ignorable_item(xa, self.a):
